@@ -97,7 +97,7 @@ RECURSIVE WrapCode(_, _, _)
 WrapCode(r, exp, i) ==
   IF "wraps" \notin DOMAIN cfg \/ i > Len(cfg.wraps) THEN ""
   ELSE LET w == cfg.wraps[i]  x == Arith(w.op, ToRef(exp[w.a]), ToRef(exp[w.b])) IN
-       IF x.k = "err" THEN WrapCode(r, exp, i + 1)
+       IF Bad(x) THEN WrapCode(r, exp, i + 1)
        ELSE IF w.al \notin DOMAIN r THEN (IF x.k = "null" THEN WrapCode(r, exp, i + 1) ELSE "missing_column_" \o w.al)
        ELSE IF ~Matches(r[w.al], x) THEN "wrong_wrapper_" \o w.al
        ELSE WrapCode(r, exp, i + 1)
